@@ -504,6 +504,64 @@ def _cse_bookkeeping(ctx, model):
             "CCodeMapper.copy() hands the assignment list to the copy but not the "
             "expression->name map, so a wrapper hoisted before the copy is "
             "assigned a second time under a new name when the copy meets it"))
+    if cp is not None:
+        _copy_map_restricted(ctx, cm, cp, loc)
+
+
+def _copy_map_restricted(ctx, cm, cp, loc):
+    """a copy that may be given another assignment list keeps only the
+    expression->name entries whose name has an assignment in *its own* list"""
+    fn = cp.node
+    params = [a.arg for a in fn.args.args[1:]]
+    if not params:
+        return          # the list cannot be replaced: nothing to restrict
+    # names derived from the parameter or from the new mapper object
+    derived = set(params)
+    result_vars = set()
+    for st in ast.walk(fn):
+        if isinstance(st, ast.Assign) and isinstance(st.value, ast.Call) and \
+                ast.unparse(st.value.func) in ("CCodeMapper", "type(self)",
+                                               "self.__class__"):
+            result_vars.update(t.id for t in st.targets if isinstance(t, ast.Name))
+    derived |= result_vars
+    for _ in range(3):
+        for st in ast.walk(fn):
+            if isinstance(st, ast.Assign) and any(
+                    isinstance(x, ast.Name) and x.id in derived
+                    for x in ast.walk(st.value)) and not any(
+                    isinstance(x, ast.Name) and x.id == "self"
+                    for x in ast.walk(st.value)):
+                derived.update(t.id for t in st.targets if isinstance(t, ast.Name))
+    comps = []
+    for st in ast.walk(fn):
+        if isinstance(st, ast.Assign) and any(
+                isinstance(t, ast.Attribute) and t.attr == "cse_to_name"
+                and isinstance(t.value, ast.Name) and t.value.id in result_vars
+                for t in st.targets):
+            comps.append(st.value)
+    if not comps:
+        return          # carried some other way; judged by the rule above
+    for v in comps:
+        if not isinstance(v, ast.DictComp):
+            raise AnalysisError("CCodeMapper.copy: the carried cse_to_name is not "
+                                "a dict comprehension")
+        ok = False
+        for g in v.generators:
+            for cond in g.ifs:
+                for c in ast.walk(cond):
+                    if isinstance(c, ast.Compare) and any(
+                            isinstance(o, ast.In) for o in c.ops):
+                        right = c.comparators[-1]
+                        names = {x.id for x in ast.walk(right)
+                                 if isinstance(x, ast.Name)}
+                        if names & derived and "self" not in names:
+                            ok = True
+        ctx.ob("S/c-cse/copy/map-restricted-to-own-list", ok, loc,
+               "the copy keeps a name only if its own list assigns it" if ok else
+               "CCodeMapper.copy(cse_name_list) carries expression->name entries "
+               "without restricting them to the names assigned in the list the "
+               "copy receives: given a shorter list, the copy uses a hoisted name "
+               "that is never assigned")
 
 
 def _mentions_param(v, param):
